@@ -88,7 +88,7 @@ func (w *removingWalker) doList(t *schema.List) (errs ValidationErrors) {
 			// an item that is selected together with fields beneath it (as
 			// WithAppendKeyFields does for its keys) is extracted once, below
 			if subset.Empty() {
-				newItems = append(newItems, removeItemsWithSchema(item, w.toRemove, w.schema, t.ElementType, w.shouldExtract).Unstructured())
+				newItems = append(newItems, removeItemsWithSchema(item, subset, w.schema, t.ElementType, w.shouldExtract).Unstructured())
 				continue
 			}
 		}
@@ -147,7 +147,7 @@ func (w *removingWalker) doMap(t *schema.Map) ValidationErrors {
 		// but ignore them when we are removing (i.e. !w.shouldExtract)
 		if w.toRemove.Has(path) {
 			if w.shouldExtract {
-				newMap[k] = removeItemsWithSchema(val, w.toRemove, w.schema, fieldType, w.shouldExtract).Unstructured()
+				newMap[k] = removeItemsWithSchema(val, w.toRemove.WithPrefix(pe), w.schema, fieldType, w.shouldExtract).Unstructured()
 
 			}
 			return true
